@@ -189,7 +189,7 @@ pub fn exec_op(sim: &Sim, op: &Op, in_cb: bool) {
         c08_cell(sim, op);
     }
     match op {
-        Op::Nop | Op::Dispatch(_) | Op::DropLoop => {}
+        Op::Nop | Op::Dispatch(_) | Op::DropLoop | Op::Run { .. } => {}
         Op::InsertPing { id, script } => {
             let Some(h) = handle(sim) else { return };
             if sim.st.borrow().srcs.contains_key(id) {
